@@ -164,8 +164,8 @@ def handle (sim : Sim) (raw : String) : Sim × String :=
     -- one application of the back-off block: initial max cur factor → cur factor ovf
     match ln.nat? "initial", ln.nat? "max", ln.nat? "cur", ln.nat? "factor" with
     | some i, some mx, some c, some f =>
-      let s := backoff { initial := i, max := mx, cap := none } { cur := c, factor := f }
-      (sim, s!"backoff cur={s.cur} factor={s.factor} ovf={if s.ovf then 1 else 0}")
+      let b := backoffVals { initial := i, max := mx, cap := none } c f
+      (sim, s!"backoff cur={b.1} factor={b.2.1} ovf={if b.2.2 then 1 else 0}")
     | _, _, _, _ => (sim, "error bad backoff")
   | "begin" =>
     match ln.nat? "initial", ln.nat? "max", ln.nat? "cap", ln.nat? "hooks" with
